@@ -1,0 +1,77 @@
+//! Verification-only seams (cargo feature `verif`, off by default).
+//!
+//! With the feature off this module is not compiled and the crate reads the real
+//! wall clock and the real `/etc/localtime`. With the feature on, a deterministic
+//! simulator can install a per-thread clock and a per-thread file reader; threads
+//! that install nothing keep the real behaviour.
+#![allow(missing_docs)]
+
+use std::cell::RefCell;
+use std::io;
+use std::time::{Duration, UNIX_EPOCH};
+
+type ClockFn = Box<dyn FnMut() -> Duration>;
+type FsFn = Box<dyn FnMut(&str) -> io::Result<Vec<u8>>>;
+
+thread_local! {
+    static CLOCK: RefCell<Option<ClockFn>> = RefCell::new(None);
+    static FS: RefCell<Option<FsFn>> = RefCell::new(None);
+}
+
+/// Installs (or with `None` removes) the simulated `CLOCK_REALTIME` of this thread.
+/// The closure returns the time since the Unix epoch.
+pub fn set_clock(clock: Option<ClockFn>) {
+    CLOCK.with(|c| *c.borrow_mut() = clock);
+}
+
+/// Installs (or with `None` removes) the simulated file reader of this thread.
+pub fn set_fs(fs: Option<FsFn>) {
+    FS.with(|f| *f.borrow_mut() = fs);
+}
+
+/// Stand-in for `std::time::SystemTime` at the crate's `SystemTime::now()` call sites.
+#[derive(Debug)]
+pub struct SystemTime;
+
+impl SystemTime {
+    pub fn now() -> std::time::SystemTime {
+        let simulated = CLOCK.with(|c| c.borrow_mut().as_mut().map(|clock| clock()));
+        match simulated {
+            Some(since_epoch) => UNIX_EPOCH + since_epoch,
+            None => std::time::SystemTime::now(),
+        }
+    }
+}
+
+/// Stand-in for `std::fs` at the crate's `fs::read("/etc/localtime")` call site.
+pub mod fs {
+    use std::io;
+
+    pub fn read(path: &str) -> io::Result<Vec<u8>> {
+        let simulated = super::FS.with(|f| f.borrow_mut().as_mut().map(|fs| fs(path)));
+        match simulated {
+            Some(result) => result,
+            None => std::fs::read(path),
+        }
+    }
+}
+
+/// Parses caller-supplied TZif bytes with the crate-private reader and resolves the
+/// UTC offset for a caller-supplied Unix timestamp (the wall clock cannot present
+/// instants before 1970 to `Offset::Local`).
+pub fn tz_offset_at(bytes: &[u8], unix: i64) -> Result<i32, String> {
+    let time_zone =
+        crate::local::timezone::TimeZone::from_tzif(bytes).map_err(|err| err.to_string())?;
+    Ok(time_zone.to_local_time_type(unix).utoff)
+}
+
+/// Parses caller-supplied TZif bytes once and resolves the UTC offset for each of the
+/// caller-supplied Unix timestamps.
+pub fn tz_offsets_at(bytes: &[u8], unix: &[i64]) -> Result<Vec<i32>, String> {
+    let time_zone =
+        crate::local::timezone::TimeZone::from_tzif(bytes).map_err(|err| err.to_string())?;
+    Ok(unix
+        .iter()
+        .map(|&unix| time_zone.to_local_time_type(unix).utoff)
+        .collect())
+}
